@@ -149,6 +149,11 @@ pub fn long_cases(with_lookahead: bool) -> Vec<(String, Cfg, String)> {
         let c = Cfg::single(vec![CPat::new("a+", 0).with_la(true, "b"), CPat::new("a+", 1).with_la(false, "b"), CPat::new("b", 2), CPat::new(" ", 3)]);
         v.push(("lookahead behind a token of 70 000 bytes".into(), c.clone(), format!("{}b {}", "a".repeat(70_000), "a".repeat(300))));
         v.push(("lookaheads beyond offset 65 536".into(), c, "aab aa ".repeat(12_000)));
+        // lookaheads that have to read far before they decide (255, 256, 257, 1 000, 70 000 blanks)
+        let far = Cfg::single(vec![CPat::new("[0-9]+", 4).with_la(false, "[ ]*;"), CPat::new("[0-9]+", 5), CPat::new("[a-z]+", 6).with_la(true, "[ ]*="), CPat::new("[a-z]+", 7), CPat::new("[;=]", 8), CPat::new("[ ]+", 9)]);
+        for n in [255usize, 256, 257, 1_000, 70_000] {
+            v.push((format!("lookahead across {n} blanks"), far.clone(), format!("12{b}; 34{b}x ab{b}= cd{b}y", b = " ".repeat(n))));
+        }
     }
     v
 }
